@@ -55,3 +55,15 @@ Lemma sample_parses : forall il id,
   exists v b n m u c, parse_bytes il id sample_input = Ok [v; b; n; DMessage m; DUnknown u (txt "SIG_GROUP_"); DComment c]
     /\ m_id m = 2566844926 /\ List.length (m_signals m) = 1%nat /\ cm_comment c = txt "a b".
 Proof. intros. vm_compute. do 6 eexists. repeat split. Qed.
+
+(** known finding C12-lookahead-scanner-error-drops-previous-definition: a NUL byte at the very start
+    of the line after a complete message is read by the scanner while the message still looks one
+    token ahead for an SG_ line; the error is raised inside the message's parseFrom, so the complete
+    message is not among the definitions reported so far (the same holds for the fixed and the old
+    parser: it is inherent to the one-token lookahead with a panicking scanner error callback) *)
+Definition lookahead_input : bytes := txt ("BO_ 1 M: 8 N" ++ LF) ++ [0].
+
+Lemma lookahead_drops_message : forall il id,
+  parse_bytes il id lookahead_input = Err (at_ 2 1 13) EScanNul []
+  /\ parse_bytes_old il id lookahead_input = Err (at_ 2 1 13) EScanNul [].
+Proof. intros. split; vm_compute; reflexivity. Qed.
